@@ -58,7 +58,7 @@ def scenario(rng):
     rng_ranks = [r for r in range(W) if rng.random() < 0.4]
     return {"W": W, "style": style, "keys": keysets, "rng_ranks": rng_ranks, "override": rng.random() < 0.5,
             "kinds": {k: rng.choice(["tensor", "object", "prim", "mixed"]) for k in allkeys},
-            "restore_shift": rng.choice([0, 0, 1])}
+            "restore_shift": rng.choice([0, 0, 1]), "replicated": rng.choice([None, None, ["**"], ["a/**"], ["b/t", "zz_rng/**"]])}
 
 
 def make_state(sc, r, fill, shift=0):
@@ -66,15 +66,19 @@ def make_state(sc, r, fill, shift=0):
     from torchsnapshot import RNGState, StateDict
     keys = sc["keys"][(r + shift) % sc["W"]] if shift else sc["keys"][r]
     st = {}
+    globs = sc.get("replicated") or []
     for k in keys:
         kind = sc["kinds"][k]
+        # data declared replicated must really be identical on all ranks (declaring different data replicated is a
+        # usage error that raises on every rank): such stateful objects get rank-independent values
+        rr = 0 if any(g == "**" or g.startswith(k + "/") for g in globs) else r
         d = {}
         if kind in ("tensor", "mixed"):
-            d["t"] = torch.full((3,), float(10 * r + ord(k))) if fill else torch.zeros(3)
+            d["t"] = torch.full((3,), float(10 * rr + ord(k))) if fill else torch.zeros(3)
         if kind in ("object", "mixed"):
-            d["o"] = (r, k) if fill else None
+            d["o"] = (rr, k) if fill else None
         if kind in ("prim", "mixed"):
-            d["p"] = 100 * r + ord(k) if fill else -1
+            d["p"] = 100 * rr + ord(k) if fill else -1
         st[k] = StateDict(d)
     if ((r + shift) % sc["W"] if shift else r) in sc["rng_ranks"]:
         st["zz_rng"] = RNGState()
@@ -87,9 +91,9 @@ def run_api(sc, api, path):
 
     def fn(r):
         if api == "take":
-            Snapshot.take(path, make_state(sc, r, True))
+            Snapshot.take(path, make_state(sc, r, True), replicated=sc.get("replicated"))
         elif api == "async_take":
-            Snapshot.async_take(path, make_state(sc, r, True)).wait()
+            Snapshot.async_take(path, make_state(sc, r, True), replicated=sc.get("replicated")).wait()
         else:
             st = make_state(sc, r, False, shift=0)
             Snapshot(path).restore(st)
@@ -139,9 +143,9 @@ def correspond(ctx: Ctx) -> Result:
             p = path if api != "async_take" else path + "_async"
             world = run_api(sc, api, p)
             differ = len({tuple(k) for k in sc["keys"]}) > 1 or 0 < len(sc["rng_ranks"]) < sc["W"]
-            res.case({"api": api, "W": sc["W"], "style": sc["style"], "keys": sc["keys"], "rng_ranks": sc["rng_ranks"], "override": sc["override"]},
+            res.case({"api": api, "W": sc["W"], "style": sc["style"], "keys": sc["keys"], "rng_ranks": sc["rng_ranks"], "override": sc["override"], "replicated": sc.get("replicated")},
                      nontrivial=differ)
-            res.count("api", api); res.count("style", sc["style"]); res.count("override", sc["override"]); res.count("W", sc["W"])
+            res.count("api", api); res.count("style", sc["style"]); res.count("override", sc["override"]); res.count("W", sc["W"]); res.count("replicated_globs", str(sc.get("replicated")))
             replay = {"scenario": sc, "api": api}
             # --- the property, directly ---------------------------------------------------------------
             errs = [e for e in world.errors if e is not None]
